@@ -75,9 +75,11 @@ for _p, _t in {
            "incremented by w (squared error by w*w), under/overflow/gap bookkeeping, statistics, dtype; Histogram1D.fill_n for a batch of ANY length (every bin gains the weight of exactly "
            "the batch entries inside it -- what folding fill over the batch adds; loop invariant + inductive lemmas of C01); HistogramND.fill of one point into a 2-D histogram of ANY shape "
            "(the reported cell contains the point on both axes, exactly that cell gains the weight, otherwise `missed` does). ",
-    "C05": "Unbounded (any number of bins): __iadd__ of histograms over the same bins adds contents and squared errors bin by bin, missed values, dtype promotion, other operand untouched. ",
-    "C06": "Unbounded (any number of bins): __imul__ / __itruediv__ scale every content by c and every squared error by c*c; in-place normalize keeps proportions. ",
-    "C12": "Unbounded: Histogram1D.copy shares nothing writable for any number of bins; slices h[a:b] are independent of their source. ",
+    "C05": "Unbounded (any number of bins): __iadd__ of histograms over the same bins adds contents and squared errors bin by bin, missed values, dtype promotion, other operand untouched; __add__ gives the same sum in a new histogram that shares no binning object "
+           "with either operand, both operands untouched. ",
+    "C06": "Unbounded (any number of bins): __imul__ / __itruediv__ scale every content by c and every squared error by c*c (a negative factor on a non-empty histogram is refused with the contents untouched); in-place normalize keeps "
+           "proportions; *, / and normalize(inplace=False) give the same in a new histogram, the operand untouched. ",
+    "C12": "Unbounded: Histogram1D.copy shares nothing writable for any number of bins; slices h[a:b], 2-D projections, T, +, *, / and normalize(inplace=False) are independent of their operands. ",
     "C11": "Unbounded (any number of bins): h[i] (edges and content of that bin) and h[a:b] (the selected bins with contents and errors; what is cut off goes to underflow / overflow so "
            "nothing is lost -- sum-split and sum-shift lemmas proved by induction per run; source untouched). ",
     "C13": "Unbounded: dtype promotion / consistency clauses of __imul__, __itruediv__, __iadd__, fill for any number of bins. ",
